@@ -411,26 +411,31 @@ def raw_json_part(chk, tier):
             if not data:
                 data = b"x"
             f = sc.write("r%03d" % k, data)
-            for ctx in (0, 1):
-                for mm in ("--mmap", "--no-mmap"):
-                    args = ["--no-config", "-a", "--json", "-j1", "-F", mm] + (["--crlf"] if tb == b"\r\n" and k % 2 else []) + \
-                           (["-C1"] if ctx else []) + ["x", f]
-                    jobs.append({"args": args})
-                    meta.append((k, data, ctx, mm))
+            # the fixed string x, and a byte-mode pattern for the lead byte of a two-byte character (a submatch that splits a
+            # character is not valid UTF-8 although its line may be)
+            for needle, pat in ((b"x", ["-F", "x"]), (b"\xc3", ["-e", "(?-u:\\xC3)"])):
+                if needle != b"x" and k % 2:
+                    continue
+                for ctx in (0, 1):
+                    for mm in ("--mmap", "--no-mmap"):
+                        args = ["--no-config", "-a", "--json", "-j1", mm] + (["--crlf"] if tb == b"\r\n" and k % 2 else []) + \
+                               (["-C1"] if ctx else []) + pat + [f]
+                        jobs.append({"args": args})
+                        meta.append((k, data, ctx, mm, needle))
         outs = rgrun.run_many(jobs)
         chk.evaluations += len(jobs)
         os.makedirs(os.path.join(vlib.WORK, "c09"), exist_ok=True)
         rpath = os.path.join(vlib.WORK, "c09", "raw_%d.ndjson" % os.getpid())
         pywhy = {}
         with open(rpath, "w") as fh:
-            for rid, ((k, data, ctx, mm), (rc, so, se)) in enumerate(zip(meta, outs), 1):
+            for rid, ((k, data, ctx, mm, needle), (rc, so, se)) in enumerate(zip(meta, outs), 1):
                 L, s0 = [], 0
                 while s0 < len(data):
                     e0 = data.find(b"\n", s0)
                     e0 = len(data) if e0 < 0 else e0 + 1
                     L.append({"s": s0, "e": e0})
                     s0 = e0
-                sel = [i + 1 for i, l in enumerate(L) if b"x" in data[l["s"]:l["e"]]]
+                sel = [i + 1 for i, l in enumerate(L) if needle in data[l["s"]:l["e"]]]
                 obs = []
                 why = None
                 try:
@@ -454,11 +459,11 @@ def raw_json_part(chk, tier):
                         elif (kind == "text") != valid_utf8(raw):
                             why = "line %s: %s used for %r" % (d["line_number"], kind, raw[:40])
                         elif t == "match":
-                            occ = [(i, i + 1) for i in range(len(raw)) if raw[i:i + 1] == b"x"]
+                            occ = [(i, i + 1) for i in range(len(raw)) if raw[i:i + 1] == needle]
                             if [(x["start"], x["end"]) for x in d["submatches"]] != occ:
-                                why = "line %s: submatches %s, occurrences of x %s" % (d["line_number"], [(x["start"], x["end"]) for x in d["submatches"]][:4], occ[:4])
-                            elif any(json_lines_field(x["match"]) != (b"x", "text") for x in d["submatches"]):
-                                why = "line %s: a submatch is not the text x" % d["line_number"]
+                                why = "line %s: submatches %s, occurrences of %r %s" % (d["line_number"], [(x["start"], x["end"]) for x in d["submatches"]][:4], needle, occ[:4])
+                            elif any(json_lines_field(x["match"]) != (needle, "text" if valid_utf8(needle) else "bytes") for x in d["submatches"]):
+                                why = "line %s: a submatch is not %r given as %s" % (d["line_number"], needle, "text" if valid_utf8(needle) else "base64 bytes")
                     elif t == "end":
                         obs.append({"k": "finish", "ln": 0, "off": d["stats"]["bytes_searched"], "len": 1})
                 if not sel and not why:
@@ -476,7 +481,7 @@ def raw_json_part(chk, tier):
             raise vlib.ToolError("GrepJudge failed:\n" + res.tail(40))
         chk.add_tlc(res)
         bad = set(v["id"] for v in res.emits("VERDICT"))
-        for rid, ((k, data, ctx, mm), (rc, so, se)) in enumerate(zip(meta, outs), 1):
+        for rid, ((k, data, ctx, mm, needle), (rc, so, se)) in enumerate(zip(meta, outs), 1):
             why = pywhy[rid] or ("the message stream (lines, numbers, offsets, lengths, bytes searched) is not the reference stream" if rid in bad else None)
             if why:
                 chk.violation({"variant": "json_raw", "mmap": mm, "context": ctx, "crlf": b"\r\n" in data},
@@ -489,7 +494,7 @@ def raw_json_part(chk, tier):
         vlib.log("[C09] raw JSON part: %d runs, %d streams rejected by TLC" % (len(jobs), len(bad)))
         # the printers behind a writer that accepts only a few bytes per write() call: same bytes as behind one that takes all
         datas = {}
-        for (k, data, ctx, mm) in meta:
+        for (k, data, ctx, mm, needle) in meta:
             datas[k] = data
         ljobs = [{"id": "%d:%d:%d" % (k, ctx, ch), "pattern": "x", "fixed": True, "input": list(d), "chunk": ch, "ctx": ctx}
                  for k, d in sorted(datas.items()) if len(d) < 30000 for ctx in (0, 1) for ch in (1, 7, 61)]
